@@ -36,7 +36,7 @@ def floors(tier):
     return {"evaluations": 3000 if q else 40000, "distinct_nontrivial": 300 if q else 3000, "composed": 1200 if q else 15000,
             "role:load": 300 if q else 4000, "role:store": 200 if q else 2500, "role:rmw": 150 if q else 2000, "unknown": 150 if q else 2000,
             "direct": 40 if q else 500, "others_unchanged_checked": 120 if q else 2000, "isa:x86": 1, "isa:aarch64": 1,
-            "kernels": 500 if q else 6000, "multiplier_models": 10 if q else 100}
+            "kernels": 500 if q else 6000, "multiplier_models": 10 if q else 100, "suffixed_mnemonics": 400 if q else 5000}
 
 
 def plan(tier, seed):
@@ -319,6 +319,15 @@ def run_kernel(isa, parser, m, isa_db, groups, isa_groups, names, path, ipath, m
         ins = make_instruction(isa, krng, m, names)
         if ins and all(o is not None for o in ins[1]):
             instrs.append(ins)
+    # mnemonics are also written with an AT&T size suffix / an AArch64 '.xx' suffix the model and ISA database do not list:
+    # the documented fall-back has to find the same entries (role of the memory operand included)
+    suffixed = []
+    for nm, ops, tag in instrs:
+        if krng.random() < 0.3 and not nm.startswith("zz"):
+            nm = nm + (krng.choice("lqwb") if isa == "x86" else krng.choice([".ne", ".4s"]))
+            R.count("suffixed_mnemonics")
+        suffixed.append((nm, ops, tag))
+    instrs = suffixed
     lines = [G.render(isa, nm, ops, krng) for nm, ops, tag in instrs]
     text = "\n".join(lines) + "\n"
     case = {"kind": "synth", "isa": isa, "model_seed": mseed, "kernel_seed": kseed, "kernel": text}
